@@ -43,7 +43,7 @@ def _text_sources(v: V, depth=0) -> List[NodeV]:
     return out
 
 
-@rule("G6", "RAW-TEXT: node text is only taken from terminals and reaches a converter / construct in a layout-free form", ["C08", "C15"], floor=12)
+@rule("G6", "RAW-TEXT: node text is only taken from terminals and reaches a converter / construct in a layout-free form", ["C08", "C15", "C07"], floor=12, default_props=["C08", "C15"])
 def g6(ctx: Ctx):
     I = interp(ctx)
     vals = rule_values(ctx)
@@ -106,6 +106,8 @@ def g6(ctx: Ctx):
                             file=PARSER_REL,
                             line=x.line,
                             facts={"content_terminal": content},
+                            # (a blank inside a name is no BASIC09 identifier: the emitted statement does not parse)
+                            props=["C08", "C15", "C07"] if f in ("_name",) or "name" in f else None,
                         )
 
 
